@@ -411,15 +411,17 @@ func ruleIDHandling(c *chk.Ctx) {
 	n := 0
 	idPreds := map[*ssa.Function]bool{}
 	for _, f := range pkgFuncs(c, c.M.Pkg) {
-		if ir.RecvNamed(f) != c.M.Jmessage {
-			continue
-		}
 		ir.Instrs(f, func(ins ssa.Instruction) {
 			st, ok := ins.(*ssa.Store)
 			if !ok || !chk.IsField(st.Addr, c.M.JID) {
 				return
 			}
 			if _, isAlloc := ir.NormCell(st.Addr.(*ssa.FieldAddr).X).(*ssa.Alloc); isAlloc {
+				return
+			}
+			// the member parser: a method of the message type, or whoever stores a token of the
+			// decoded member object
+			if ir.RecvNamed(f) != c.M.Jmessage && !fromDecodedObject(c, st.Val) {
 				return
 			}
 			// only stores of a looked-up/decoded value (the parser), not literal construction
@@ -491,7 +493,19 @@ func ruleReaderErrorReplies(c *chk.Ctx) {
 	var pushes []push
 	collect := func(ci ssa.CallInstruction) {
 		g := ci.Common().StaticCallee()
-		if g == nil || ir.RecvNamed(g) != c.M.Server || g.Signature.Params().Len() != 1 || g.Signature.Params().At(0).Type().String() != "error" {
+		if g == nil || ir.RecvNamed(g) != c.M.Server {
+			return
+		}
+		errIdx := -1
+		for i := 0; i < g.Signature.Params().Len(); i++ {
+			if g.Signature.Params().At(i).Type().String() == "error" {
+				if errIdx >= 0 {
+					return
+				}
+				errIdx = i
+			}
+		}
+		if errIdx < 0 {
 			return
 		}
 		if g == stopFunc(c, "server") {
@@ -511,7 +525,7 @@ func ruleReaderErrorReplies(c *chk.Ctx) {
 		if !buildsNull {
 			return
 		}
-		pushes = append(pushes, push{ci, ci.Common().Args[1]})
+		pushes = append(pushes, push{ci, ci.Common().Args[1+errIdx]})
 	}
 	for _, rf := range c.P.Ext(reader) {
 		ir.Calls(rf, collect)
@@ -568,7 +582,10 @@ func ruleReaderErrorReplies(c *chk.Ctx) {
 			ci, ok := i.(ssa.CallInstruction)
 			return ok && ci.Common().StaticCallee() != nil && ir.BaseName(ci.Common().StaticCallee()) == "Add" && len(ci.Common().Args) > 0 && chk.IsField(ci.Common().Args[0], c.M.SInq)
 		}, func(i ssa.Instruction) bool {
-			// stop at the next Recv (next loop iteration)
+			// stop at the next Recv / at the head of the enclosing loop (next iteration)
+			if hdr := loopHeaderOf(p.ci.Block()); hdr != nil && i.Block() == hdr {
+				return true
+			}
 			ci, ok := i.(ssa.CallInstruction)
 			return ok && ci.Common().IsInvoke() && ci.Common().Method.Name() == "Recv"
 		})
@@ -659,14 +676,24 @@ func ruleEncoderWrites(c *chk.Ctx) {
 
 func ruleEncoderWritesIn(c *chk.Ctx, f *ssa.Function, encs map[*ssa.Function]bool, member bool) {
 	n := 0
-	ir.Calls(f, func(ci ssa.CallInstruction) {
-		cc := ci.Common()
-		if !ir.IsCallTo(cc, "(*bytes.Buffer).Write", "(*bytes.Buffer).WriteString", "(*bytes.Buffer).WriteByte", "(*strings.Builder).WriteString", "(*strings.Builder).Write", "(*strings.Builder).WriteByte") {
-			return
-		}
+	for _, em := range emitsOf(c, f, encs) {
 		n++
-		arg := cc.Args[1]
+		arg := em.arg
+		if cv, isCV := arg.(*ssa.Convert); isCV {
+			if k, isK := cv.X.(*ssa.Const); isK {
+				arg = k
+			}
+		}
 		why, ok := "", false
+		rawField := func(v ssa.Value) (string, bool) {
+			if ct, isCT := v.(*ssa.ChangeType); isCT {
+				v = ct.X
+			}
+			if u, isU := v.(*ssa.UnOp); isU && (chk.LoadsField(u, c.M.JID) || chk.LoadsField(u, c.M.JP) || chk.LoadsField(u, c.M.JR)) {
+				return ir.FieldVar(u.X.(*ssa.FieldAddr)).Name(), true
+			}
+			return "", false
+		}
 		switch x := arg.(type) {
 		case *ssa.Const:
 			ok, why = true, "constant"
@@ -676,23 +703,23 @@ func ruleEncoderWritesIn(c *chk.Ctx, f *ssa.Function, encs map[*ssa.Function]boo
 				isEnc := call.Call.StaticCallee() != nil && encs[call.Call.StaticCallee()]
 				if isMarshal || isEnc {
 					sameErr := func(v ssa.Value) bool { return ir.IsExtractOf(v, call, 1) }
-					if ir.ProvesNil(ir.CondsAt(ci.Block()), sameErr) {
+					if ir.ProvesNil(em.conds(), sameErr) {
 						ok, why = true, "json.Marshal / encoder result on its err == nil edge"
 					} else {
 						why = "marshal result written without checking its error"
 					}
 				}
 			}
-		case *ssa.ChangeType:
-			if u, isU := x.X.(*ssa.UnOp); isU && (chk.LoadsField(u, c.M.JID) || chk.LoadsField(u, c.M.JP) || chk.LoadsField(u, c.M.JR)) {
-				ok, why = true, "raw field "+ir.FieldVar(u.X.(*ssa.FieldAddr)).Name()+" (JSON by construction, see PROV.raw)"
+		default:
+			if name, isRaw := rawField(arg); isRaw {
+				ok, why = true, "raw field "+name+" (JSON by construction, see PROV.raw)"
 			}
 		}
 		if !ok && why == "" {
 			why = fmt.Sprintf("%T is neither a constant, a checked json.Marshal result, nor a raw ID/P/R field", arg)
 		}
-		c.Check(ok, "PROV.encoder", f, "bytes written by the encoder", ci.Pos(), why, "the encoder writes bytes with an unsafe source: "+why+" (e.g. a method name written without JSON quoting/escaping)")
-	})
+		c.Check(ok, "PROV.encoder", f, "bytes written by the encoder", em.inner.Pos(), why, "the encoder writes bytes with an unsafe source: "+why+" (e.g. a method name written without JSON quoting/escaping)")
+	}
 	if n == 0 {
 		// a wrapper that delegates to another encoder function writes nothing itself
 		delegates := false
@@ -881,7 +908,7 @@ func ruleRawFields(c *chk.Ctx) {
 				return
 			}
 			// the parser stores the peer's own tokens (map values): skip stores inside jmessage's own methods that parse
-			if ir.RecvNamed(f) == c.M.Jmessage {
+			if ir.RecvNamed(f) == c.M.Jmessage || fromDecodedObject(c, st.Val) {
 				return
 			}
 			n++
@@ -1584,12 +1611,33 @@ func ruleClientErrorMapping(c *chk.Ctx) {
 			continue
 		}
 		n++
-		okFilter := false
+		// some return yields the filtered error, and no return yields the peer's error unfiltered
+		// (errors of other origin — marshalling, sending — may share the return)
+		okFilter, leak := false, false
+		fe := filterErrorFunc(c)
+		isFilter := func(v ssa.Value) bool {
+			call, ok := v.(*ssa.Call)
+			return ok && fe != nil && call.Call.StaticCallee() == fe
+		}
+		isPeerErr := func(v ssa.Value) bool {
+			if call, ok := v.(*ssa.Call); ok {
+				if g := call.Call.StaticCallee(); g != nil && ir.RecvNamed(g) == c.M.Response && g.Signature.Results().Len() == 1 && strings.HasSuffix(g.Signature.Results().At(0).Type().String(), ".Error") {
+					return true
+				}
+			}
+			return chk.LoadsField(v, c.M.RErr)
+		}
 		for _, r := range ir.Returns(f) {
-			if through, some := errorsThroughFilter(c, ir.ReturnResult(r, 1)); through && some {
-				okFilter = true
+			for _, src := range c.P.SourcesStop(ir.ReturnResult(r, 1), func(v ssa.Value) bool { return isFilter(v) || isPeerErr(v) }) {
+				if isFilter(src) {
+					okFilter = true
+				}
+				if isPeerErr(src) {
+					leak = true
+				}
 			}
 		}
+		okFilter = okFilter && !leak
 		c.Check(okFilter, "PROV.settle", f, "errors returned through filterError", f.Pos(), "the peer's error is returned through filterError (context sentinels restored)", "the peer's error is returned without filterError: context.Canceled/DeadlineExceeded would not surface as such")
 	}
 	if n < 2 {
@@ -1716,4 +1764,48 @@ func filterErrorFunc(c *chk.Ctx) *ssa.Function {
 		}
 	}
 	return fe
+}
+
+// fromDecodedObject: v is a value of a decoded member object — an element of a
+// map[string]json.RawMessage obtained by ranging over it or by look-up —
+// possibly handed on through parameters of private helpers.
+func fromDecodedObject(c *chk.Ctx, v ssa.Value) bool {
+	isElem := func(x ssa.Value) bool {
+		switch y := x.(type) {
+		case *ssa.Extract:
+			if nx, ok := y.Tuple.(*ssa.Next); ok && !nx.IsString {
+				if rg, ok := nx.Iter.(*ssa.Range); ok {
+					if m, ok := rg.X.Type().Underlying().(*types.Map); ok {
+						return strings.HasSuffix(m.Elem().String(), "json.RawMessage")
+					}
+				}
+			}
+			if lk, ok := y.Tuple.(*ssa.Lookup); ok {
+				if m, ok := lk.X.Type().Underlying().(*types.Map); ok {
+					return strings.HasSuffix(m.Elem().String(), "json.RawMessage")
+				}
+			}
+		case *ssa.Lookup:
+			if m, ok := y.X.Type().Underlying().(*types.Map); ok {
+				return strings.HasSuffix(m.Elem().String(), "json.RawMessage")
+			}
+		}
+		return false
+	}
+	// only direct flow (locals, parameters of private helpers) counts: a value read back from a
+	// field of some message is that message's business
+	viaField := func(x ssa.Value) bool {
+		u, ok := x.(*ssa.UnOp)
+		if !ok || u.Op != token.MUL {
+			return false
+		}
+		_, isFA := u.X.(*ssa.FieldAddr)
+		return isFA
+	}
+	for _, src := range c.P.SourcesStop(v, func(x ssa.Value) bool { return isElem(x) || viaField(x) }) {
+		if isElem(src) {
+			return true
+		}
+	}
+	return false
 }
